@@ -80,6 +80,26 @@ def check_c1(ctx, f, cmp_node, inst):
             instance=inst)
 
 
+def _index_core(sl):
+    """The one selecting entry of a subscript: `k`, `(..., k)`,
+    `(..., k, np.newaxis)`, `(..., k:k+1)` all select slot k."""
+    elts = list(sl.elts) if isinstance(sl, ast.Tuple) else [sl]
+    core = []
+    for x in elts:
+        if isinstance(x, ast.Constant) and x.value in (Ellipsis, None):
+            continue
+        if dotted(x) in ("np.newaxis", "None", "Ellipsis"):
+            continue
+        if isinstance(x, ast.Slice):
+            if x.lower is None and x.upper is None:
+                continue
+            if x.lower is not None and x.step is None:
+                core.append(dotted(x.lower))
+                continue
+        core.append(dotted(x))
+    return core[0] if len(core) == 1 else dotted(sl)
+
+
 def rule_c1(ctx):
     r = ctx.r
     r.rule("C1", "a comparison with zero that decides chart membership must "
@@ -213,7 +233,7 @@ def rule_chart_slot(ctx):
             for d in ast.walk(n.args[0]):
                 if isinstance(d, ast.BinOp) and isinstance(d.op, ast.Div) \
                         and isinstance(d.right, ast.Subscript):
-                    idx.add(("divide", dotted(d.right.slice)))
+                    idx.add(("divide", _index_core(d.right.slice)))
     names = {v for _, v in idx}
     kinds = {k for k, _ in idx}
     if kinds == {"delete", "divide"} and len(names) == 1:
